@@ -182,11 +182,11 @@ package arvados
 //@ axiom forall r $row[storedSegment], o int, k int :: {stsum(r, o, k)} k > 0 ==> stsum(r, o, k) == stsum(r, o, k-1) + int64(r[ix(o, k-1)].length)
 
 // Creating directory entries does not touch the block list being parsed.
-//@ func dirnode.createFileAndParents trusted
+//@ func dirnode.createFileAndParents property C09,C10
 //@   modifies except(mem:storedSegment mem:string)
-//@ func manifestUnescape trusted
+//@ func manifestUnescape property C09,C10
 //@   modifies nothing
-//@ func filenode.appendSegment trusted
+//@ func filenode.appendSegment property C09,C10
 //@   modifies filenode.segments filenode.fileinfo mem:segment
 
 // loadManifest, the mapping of one file token (offset, length) onto the blocks
@@ -210,7 +210,7 @@ package arvados
 //@   modifies nothing
 //@ iface FileSystem.PutB
 //@   modifies nothing
-//@ func filenode.FS trusted pure
+//@ func filenode.FS property C08,C09 pure
 //@   modifies nothing
 //@ func fileSystem.throttle trusted
 //@   modifies nothing
@@ -309,7 +309,7 @@ package arvados
 //@   modifies nothing
 //@ iface inode.Parent
 //@   modifies nothing
-//@ func rlookup trusted
+//@ func rlookup property C08
 //@   modifies nothing
 
 // openFile: the access mode of the handle is decoded from the low two flag
